@@ -59,6 +59,8 @@ def _worker(args):
         res["inconclusive"].append("harness-error: %s" % e)
     except Exception as e:
         res["inconclusive"].append("harness-crash: %s: %s\n%s" % (type(e).__name__, e, traceback.format_exc()[-1500:]))
+    for u in sorted(set(eng.unsupported))[:5]:
+        res["inconclusive"].append("unsupported: %s" % u)
     res["stats"] = eng.stats.as_dict()
     res["functions"] = loader.functions_encoded()
     res["lemmas"] = dict(FL.LEMMAS)
